@@ -138,7 +138,7 @@ NOT_CLAIMED = {}
 PROPS = {
     "C04": {
         "modules": ["SxVerif.Props.C04"],
-        "components": ["iter"],
+        "components": ["iter", "iterpass"],
         "search": search_c04,
         "trusted_base": [
             "Mathlib v4.33.0 (ZMod, orderOf, lucas_primality) — checked by the same kernel",
@@ -179,7 +179,7 @@ PROPS = {
     },
     "C12": {
         "modules": ["SxVerif.Props.C12"],
-        "components": ["cancel", "pipeline"],
+        "components": ["cancel", "pipeline", "e2esigint"],
         "trusted_base": [
             "modelled, not verified: Go channel / select / WaitGroup / context semantics as Model/Engine.lean (see C08); Ctrl-C = step `cancelCmd`, enabled in every state, cancelling command ctx and derived ctx together; SIGINT delivery itself is runtime",
             "packet side: the theorems C12_packet_no_panic / C12_packet_errc_closes are the C07 lemmas over Pipe.step (Proofs/ConcPacket*.lean); the pipeline component's cancel mode ties them to the code",
@@ -193,7 +193,7 @@ PROPS = {
     },
     "C07": {
         "modules": ["SxVerif.Props.C07"],
-        "components": ["pipeline", "gen"],
+        "components": ["pipeline", "gen", "e2eslow"],
         "extra": [race_pipeline],
         "trusted_base": [
             "modelled, not verified: Go channel / select / sync.WaitGroup / sync.Pool semantics at the granularity of one channel operation or one call per step (Model/Pipe.lean); gopacket SerializeBuffer.Clear never fails; the request channel is modelled unbounded (superset of every capacity incl. rendezvous)",
@@ -248,7 +248,7 @@ PROPS = {
     },
     "C01": {
         "modules": ["SxVerif.Props.C01"],
-        "components": ["gen", "iter", "e2e"],
+        "components": ["gen", "iter", "e2e", "e2ebig"],
         "search": search_c01,
         "trusted_base": [
             "modelled, not verified: generators as the list they send before closing (channel plumbing is M-conc, C07/C08); cidranger as list membership; net.ParseIP / easyjson / bufio as a line classifier; os.Stdin through the buffering opener as a constant file",
@@ -286,7 +286,7 @@ PROPS = {
     },
     "C05": {
         "modules": ["SxVerif.Props.C05"],
-        "components": ["fill", "iface", "parse"],
+        "components": ["fill", "iface", "parse", "e2efill"],
         "trusted_base": [
             "modelled, not verified: gopacket layers.{Ethernet,IPv4,TCP,UDP,ICMPv4,ARP}.SerializeTo, gopacket.Payload, SerializeLayers order, checksum / tcpipChecksum / pseudoheaderChecksum, Ethernet padding to 60 bytes, net.IP.To4 (Model/Fill.lean); validated byte for byte against the real fillers on every run, not proved",
             "math/rand draws are parameters of the model; their ranges are regenerated from the four Fill bodies by sxfacts (Generated/Fill.lean, theorem C05_draws); rand.Intn(n) returns a value in [0, n)",
@@ -317,6 +317,7 @@ PROPS = {
     "C14": {
         "modules": ["SxVerif.Props.C14"],
         "components": ["json", "proc"],
+        "components": ["json", "e2ejson"],
         "trusted_base": [
             "modelled, not verified: easyjson v0.7.7 jwriter.Writer.String / Uint8 / Uint16 and go1.23 encoding/json appendString (escapeHTML on), strconv.AppendInt/AppendUint, utf8.DecodeRuneInString (Model/Json.lean; validated byte-for-byte on every run, incl. all 256 single bytes through both escapers)",
             "encoding/json's reflection walk (struct tags, omitempty, nil map/slice/pointer = null, Marshaler types such as time.Time, []byte = base64, float64 formatting) is NOT modelled: the harness computes the value tree it walks (goVal in harness/cmd/sxdiff/json.go, floatEncoder copied verbatim) and the model renders that tree (sorting Go maps); the theorems cover every well-formed tree",
@@ -403,6 +404,7 @@ PROPS = {
     "C18": {
         "modules": ["SxVerif.Props.C18"],
         "components": ["parse", "e2erate"],
+        "components": ["parse", "e2efill"],
         "trusted_base": [
             "modelled, not verified: strconv.ParseUint(.,10,16) / ParseInt(.,10,32), strings.Split/TrimSpace/ToLower, bufio.Scanner line splitting with the 64 KiB limit, strconv.Unquote on the quoted payload (Model/Parse.lean); time.ParseDuration is a parameter `dur` of the rate theorems (the harness passes the real function's answer)",
             "flag tables regenerated from command/config.go and command/tcp.go by sxfacts (Generated/Flags.lean)",
